@@ -1,4 +1,8 @@
 """C01 — every session is plugged in and unplugged exactly once; run() terminates."""
+import json
+import os
+import subprocess
+import sys
 import time
 
 from harness.core import z, coq_bool, coq_opt, coq_str
@@ -42,50 +46,98 @@ def tie_ambiguous(inp, impl):
     return last[1] == "Plugin" and len(same) > 1
 
 
-def make_case(inp):
-    impl = S.run_impl(inp)
+def case_of(inp, impl):
     amb = impl["min_margin"] < 1e-7 or tie_ambiguous(inp, impl) or impl.get("stage") == "build"
     coq = ("(mkC01 %s\n  %s %s\n  %s %s %s)" % (
         S.input_coq(inp, impl), coq_opt(impl["error"], coq_str), S.hist_coq(impl["hist"]), S.occ_coq(impl["occ"]),
         z(impl["iteration"]), coq_bool(impl["qempty"])))
-    kind = ("malformed/" + inp["malformed"]) if inp["malformed"] else ("valid/" + inp["sched"]["kind"])
+    fam = inp.get("family", "plain")
+    kind = ("malformed/" + inp["malformed"]) if inp["malformed"] else ("%s/%s" % ("valid" if fam == "plain" else fam, inp["sched"]["kind"]))
     slim = dict(error=impl["error"], hist=impl["hist"], occ=impl["occ"], iteration=impl["iteration"], qempty=impl["qempty"],
-                final_occ=impl["final_occ"], n_calls=len(impl["calls"]))
+                final_occ=impl["final_occ"], n_calls=len(impl["calls"]), rates=impl["rates"], flags=impl.get("flags", []),
+                n_raised=impl.get("n_raised", 0))
     return dict(input=inp, impl=slim, coq=coq, ambiguous=amb, kind=kind,
-                sig=[inp["net"], inp["sessions"], inp["recomputes"], inp["max_recompute"], inp["sched"]],
+                sig=[inp["net"], inp["sessions"], inp["recomputes"], inp["max_recompute"], inp["sched"], fam, inp.get("idstyle")],
                 nontrivial=len(inp["sessions"]) > 0)
 
 
+def make_cases(inp):
+    """one case per simulation: the twin family yields two"""
+    impl = S.run_impl(inp)
+    out = [case_of(inp, impl)]
+    if "twin_trace" in impl:
+        out.append(case_of(dict(inp["twin"], family="twin"), impl["twin_trace"]))
+    return out
+
+
+FAMILIES = [("reuse", 0.08), ("twin", 0.05), ("resume", 0.08), ("netupdate", 0.04)]
+
+
 def gen_cases(rng, n, tier):
+    specs = [(rng.choice(MALFORMED), None) for _ in range((n * 3) // 20)]
+    for fam, frac in FAMILIES:
+        specs += [(None, fam)] * max(1, int(n * frac))
+    specs += [(None, None)] * max(0, n - len(specs) - sum(1 for _, f in specs if f == "twin"))   # a twin yields two cases
+    rng.shuffle(specs)
     cases = []
-    n_mal = n // 5
-    for i in range(n):
-        mal = rng.choice(MALFORMED) if i >= n - n_mal else None
-        cases.append(make_case(S.gen_input(rng, tier, malformed=mal)))
+    for mal, fam in specs:
+        cases += make_cases(S.gen_input(rng, tier, malformed=mal, family=fam))
+    hash_family(rng, cases)
     return cases
 
 
+def hash_family(rng, cases):
+    """the same inputs in a second process with another PYTHONHASHSEED must give the same traces"""
+    from harness import hashrun
+    picked = [c for c in cases if c["input"].get("family") == "plain" and not c["input"]["malformed"]
+              and c["impl"]["error"] is None and len(c["input"]["sessions"]) >= 3][:10]
+    if not picked:
+        return
+    env = dict(os.environ, PYTHONHASHSEED=str(rng.randrange(1, 4000000)))
+    try:
+        p = subprocess.run([sys.executable, "-m", "harness.hashrun"], input=json.dumps([c["input"] for c in picked]),
+                           capture_output=True, text=True, env=env, timeout=300)
+        theirs = json.loads(p.stdout)
+    except Exception as e:      # noqa
+        picked[0]["hash_flag"] = "second process failed: %r" % (e,)
+        return
+    for c, d in zip(picked, theirs):
+        mine = json.loads(json.dumps(hashrun.digest(S.run_impl(json.loads(json.dumps(c["input"]))))))
+        if mine != d:
+            c["hash_flag"] = "trace differs in a process with PYTHONHASHSEED=%s" % env["PYTHONHASHSEED"]
+        c["kind"] += "+hashseed"
+
+
 def monitor(case):
-    if case.get("ambiguous"):
-        return None
+    if case.get("hash_flag"):
+        return case["hash_flag"]
     return S.monitor_c01(case["input"], case["impl"])
 
 
 def search(rng, budget_s, broken):
     t0 = time.time()
+    fams = [None, None, None, "reuse", "twin", "resume", "netupdate"]
     while time.time() - t0 < budget_s:
-        inp = S.gen_input(rng, "quick")
+        inp = S.gen_input(rng, "quick", family=rng.choice(fams))
         impl = S.run_impl(inp)
-        r = S.monitor_c01(inp, impl)
-        if r and impl["min_margin"] >= 1e-7:
-            inp, impl, r = shrink(inp, impl, r)
+        r = full_monitor(inp, impl)
+        if r:
+            if S.monitor_c01(inp, impl):
+                inp, impl, r = shrink(inp, impl, r)
             return dict(case=inp, impl=dict(error=impl["error"], hist=impl["hist"], occ=impl["occ"],
                                             iteration=impl["iteration"], qempty=impl["qempty"]), why=r)
     return None
 
 
+def full_monitor(inp, impl):
+    r = S.monitor_c01(inp, impl)
+    if not r and "twin_trace" in impl:
+        r = S.monitor_c01(dict(inp["twin"], family="twin"), impl["twin_trace"])
+    return r
+
+
 def shrink(inp, impl, why):
-    """drop sessions / recomputes / stations while the monitor still fails"""
+    """drop sessions / recomputes while the monitor still fails"""
     changed = True
     while changed:
         changed = False
@@ -105,5 +157,6 @@ def shrink(inp, impl, why):
 
 def replay(w):
     inp = w["case"]
-    impl = S.run_impl(inp)
-    return S.monitor_c01(inp, impl)
+    if inp.get("family") == "twin" and "twin" not in inp:      # the nested twin on its own
+        inp = dict(inp, family="plain")
+    return full_monitor(inp, S.run_impl(inp))
